@@ -11,6 +11,7 @@ package main
 
 import (
 	"fmt"
+	"os"
 	"go/types"
 	"strings"
 
@@ -173,3 +174,61 @@ func (st *State) iterReturn(f *Frame) {
 }
 
 var _ = types.Typ
+
+// readOnlyFn: a syntactic sufficient condition for "calling fn changes nothing the caller
+// can observe": no store except to its own local cells, no map update, no send, no go/defer,
+// and it only calls builtins (len, cap), functions declared pure, or module functions that
+// are read-only themselves (depth-limited).
+func (e *Engine) readOnlyFn(fn *ssa.Function, depth int) bool {
+	if fn == nil || len(fn.Blocks) == 0 || depth > 3 {
+		return false
+	}
+	for _, b := range fn.Blocks {
+		for _, ins := range b.Instrs {
+			switch x := ins.(type) {
+			case *ssa.Store:
+				if al := rootAlloc(x.Addr); al != nil && al.Parent() == fn && !al.Heap {
+					continue
+				}
+				if os.Getenv("QEDVC_DEBUG") != "" {
+					fmt.Fprintln(os.Stderr, "readOnlyFn:", fn.Name(), "store", x)
+				}
+				return false
+			case *ssa.MapUpdate, *ssa.Send, *ssa.Go, *ssa.Defer, *ssa.Select:
+				if os.Getenv("QEDVC_DEBUG") != "" {
+					fmt.Fprintln(os.Stderr, "readOnlyFn:", fn.Name(), "effect", x)
+				}
+				return false
+			case *ssa.Call:
+				if os.Getenv("QEDVC_DEBUG") != "" {
+					fmt.Fprintln(os.Stderr, "readOnlyFn:", fn.Name(), "call", x)
+				}
+				cc := x.Common()
+				if bi, ok := cc.Value.(*ssa.Builtin); ok {
+					switch bi.Name() {
+					case "len", "cap", "ssa:deferstack", "ssa:wrapnilchk":
+						continue
+					}
+					return false
+				}
+				callee := cc.StaticCallee()
+				if callee == nil {
+					return false
+				}
+				if e.isPureFn(callee) {
+					continue
+				}
+				if c := e.fnContract[callee]; c != nil {
+					if len(c.Modifies) == 0 && !c.Trusted {
+						continue
+					}
+					return false
+				}
+				if !e.readOnlyFn(callee, depth+1) {
+					return false
+				}
+			}
+		}
+	}
+	return true
+}
